@@ -57,6 +57,12 @@ NoOverlap(localSeq, remoteSeq) ==
 \* overlap, nest, and do not overlap; maxima below and above the protocol maximum)
 ProtoC == {<<1, 2, 1>>, <<1, 5, 2>>, <<2, 5, 3>>, <<1, 5, 3>>}
 DelegC == {<<0, 1, 0>>, <<0, 1, 1>>, <<0, 4, 3>>, <<2, 5, 3>>, <<6, 8, 7>>}
+\* the second reading of "mix": some alive node SPEAKS (current version) a protocol or delegate version that
+\* another alive node does not understand (lies outside its [min, max]) - ranges may overlap and the two
+\* still cannot talk, because memberlist does not negotiate versions
+Speaks(va, vb) == va[3] < vb[1] \/ va[3] > vb[2] \/ va[6] < vb[4] \/ va[6] > vb[5]
+Unintelligible(localSeq, remoteSeq) ==
+  LET A == AliveVsns(localSeq) \cup AliveVsns(remoteSeq) IN \E va, vb \in A : Speaks(va, vb)
 VsnChoices == {pr \o dl : pr \in ProtoC, dl \in DelegC}
                 \cup {<<3, 5, 4, 0, 0, 0>>, <<1, 1, 1, 0, 0, 0>>}
 SelfEntry == [state |-> "alive", vsn |-> <<1, 5, 2, 0, 0, 0>>]
@@ -80,11 +86,12 @@ VNext == /\ pp.kind = "none"
               LET localSeq == <<SelfEntry, loc>>
                   remoteSeq == IF r2 = SelfEntry THEN <<r1>> ELSE <<r1, r2>> IN
               pp' = [kind |-> "versions", local |-> localSeq, remote |-> remoteSeq,
-                     accepted |-> VersionsCompatible(localSeq, remoteSeq), noOverlap |-> NoOverlap(localSeq, remoteSeq)]
+                     accepted |-> VersionsCompatible(localSeq, remoteSeq), noOverlap |-> NoOverlap(localSeq, remoteSeq),
+                     unintelligible |-> Unintelligible(localSeq, remoteSeq)]
 PSpec == PInit /\ [][PNext \/ VNext]_pp
 
 \* the transcription of verifyProtocol rejects every exchange whose ranges do not overlap
-C09_VersionsModel == pp.kind = "versions" => (pp.noOverlap => ~pp.accepted)
+C09_VersionsModel == pp.kind = "versions" => ((pp.noOverlap \/ pp.unintelligible) => ~pp.accepted)
 
 C09_AllOrNothing == pp.kind = "case" /\ pp.fail # "none" =>
                       IF Reader(pp.dir) = "H" THEN ~pp.out.hMerged ELSE ~pp.out.iMerged
